@@ -26,7 +26,7 @@ CHECKS = {
     'C04': dict(
         engine='Lifecycle',
         technique='TLA+ spec Lifecycle.tla (parent procedures wait/terminate/is_alive/close of thread, process and remote workers step by step; child OS states running/frozen/stopped; control threads; server-side control thread; frontend thread) model-checked with TLC: liveness "every call returns" under weak fairness, safety Truthful/DeadFast/Force, pre-fix variants rejected; TLC enumerates all outcomes of planned histories; each history replayed on real workers with real SIGSTOP / GIL-holding C call / exception-swallowing targets; TLC judges every real execution (LifecycleJudge) against /proc ground truth; model outcomes vs real outcomes = conformance',
-        text='Exhaustive TLC model checking (all call histories up to 3 (quick: liveness to 2) / 4 (thorough) over 36 scenarios: kind x persistent x target behaviour x start state, with SIGSTOP at any point), bound to the code by replaying planned histories on real thread/process/remote workers and judging each real execution with the same TLA+ operators.',
+        text='Exhaustive TLC model checking (all call histories up to 3 (quick: liveness to 2) / 4 (thorough) over 38 scenarios (incl. a child that has reported its result while its process lingers): kind x persistent x target behaviour x start state, with SIGSTOP at any point), bound to the code by replaying planned histories on real thread/process/remote workers and judging each real execution with the same TLA+ operators.',
         note='Trusted: TLC; the timing abstraction (a small timeout expires only when no other party can step; timeout 0 may expire at once); /proc as ground truth for child liveness; durations classed against generous bounds (3*timeout+2 s; "at once" = under 0.3 s, re-measured before alarming). Server process itself is assumed responsive. Replay covers a seeded sample of histories of length 3-4 (all of length <= 2 in the thorough tier).',
         design_ref='6/C04'),
 }
@@ -111,7 +111,8 @@ def host_main(case_path, out_path):
         else:
             mod = __import__('pyworkers.' + kind, fromlist=['x'])
             cls = getattr(mod, kind.capitalize() + 'Worker')
-        one_shot = {'coop': TG.coop_loop, 'swallow': TG.swallow_loop, 'sleep': TG.sleep_block, 'frozen': TG.frozen_c}
+        one_shot = {'coop': TG.coop_loop, 'swallow': TG.swallow_loop, 'sleep': TG.sleep_block, 'frozen': TG.frozen_c,
+                    'linger': TG.linger_ret}
         if start == 'notrun':
             w = cls(target=None, **kw)
         elif pers:
@@ -143,6 +144,8 @@ def host_main(case_path, out_path):
 
         if start == 'run' and not (pers and beh == 'idle'):
             await_(lambda: os.path.exists(flag), 20, 'the target to reach its position')
+            if beh == 'linger':
+                time.sleep(0.2)       # the child reports its result and closes its pipes; the process lives on
             if beh in ('frozen', 'sleep'):
                 time.sleep(0.1)       # the mark is written just before the blocking call: let the child enter it
         elif start == 'run':
@@ -277,6 +280,8 @@ def host_main(case_path, out_path):
 def _valid(kind, pers, beh, start):
     if kind == 'thread' and beh == 'frozen':
         return False
+    if beh == 'linger' and (kind == 'thread' or pers != 'F'):
+        return False
     if beh == 'idle' and pers != 'T':
         return False
     if start != 'run' and beh != 'coop':
@@ -290,7 +295,7 @@ def scenarios():
     out = []
     for kind in ('thread', 'process', 'remote'):
         for pers in ('F', 'T'):
-            for beh in ('coop', 'swallow', 'sleep', 'frozen', 'idle'):
+            for beh in ('coop', 'swallow', 'sleep', 'frozen', 'idle', 'linger'):
                 for start in ('run', 'dead', 'notrun'):
                     if _valid(kind, pers, beh, start):
                         out.append(dict(kind=kind, pers=pers, beh=beh, start=start))
@@ -335,6 +340,12 @@ def gen_cases(tier, rng):
         add(S(kind, 'sleep'), ['stop', 'term0F', 'waitT'])
         add(S(kind, 'frozen'), ['termTF', 'wait0', 'termT'])
         add(S(kind, 'frozen'), ['waitT', 'term0F', 'alive', 'termTF'])
+    # the child has reported its result but the process lingers (a non-daemon thread left behind by the target)
+    for kind in ('process', 'remote'):
+        add(S(kind, 'linger'), ['waitT', 'alive', 'termTF', 'wait0'])
+        add(S(kind, 'linger'), ['wait0', 'waitT', 'termT', 'termTF'])
+        add(S(kind, 'linger'), ['alive', 'waitT', 'term0F', 'alive'])
+        add(S(kind, 'linger'), ['waitT', 'stop', 'termTF', 'alive'])
     add(S('process', 'idle', 'T'), ['stop', 'termT'])
     add(S('remote', 'idle', 'T'), ['close', 'stop', 'termTF', 'alive'])
     # back-to-back calls (no pause between them)
@@ -463,6 +474,8 @@ def run(prop, tier, replay=None):
         jobs['mc_live'] = dict(cfg=_mc_cfg(MaxOps='4'), workers=16, label='exhaustive, histories <= 4, liveness + safety, all fixes applied')
     for nm, fx in (('pre_all', 'FixNone'), ('pre_poll', 'FixNoPoll'), ('pre_kill', 'FixNoKill'), ('pre_self', 'FixNoSelf')):
         jobs[nm] = dict(cfg=_mc_cfg(MaxOps='2', Fix=fx), workers=2, label='pre-fix variant %s (must be rejected)' % fx, expect_error=True)
+    jobs['whatif_reportmeansdead'] = dict(cfg=_mc_cfg(MaxOps='2', ReportMeansDead='TRUE'), workers=2, expect_error=True,
+                                          label='what-if: wait() takes the arrival of the final message for the death of the child (must be rejected)')
     for wn in ('W_TrueAnswer', 'W_DeadCall', 'W_ForceStopped', 'W_ForceFrozen', 'W_Swallowed'):
         jobs[wn] = dict(cfg=_mc_cfg(MaxOps='2').replace('PROPERTY Live_Returns', 'INVARIANT ' + wn), workers=2, label='witness ' + wn, expect_error=True)
     plan = open(os.path.join(tlc.SPEC, 'Lifecycle_plan.cfg')).read()
@@ -491,6 +504,8 @@ def run(prop, tier, replay=None):
             if r.error or not r.completed:
                 raise MachineryError('%s: Lifecycle.tla fails: %s\n%s\n%s' % (nm, r.error, '\n'.join(r.trace[:80]), r.stdout[-1500:]))
             ev.add_tlc(j['label'], r, role='model')
+    if wit['whatif_reportmeansdead'] != 'invariant:Inv_Truthful':
+        raise MachineryError('what-if ReportMeansDead is rejected for an unexpected reason: %r' % wit['whatif_reportmeansdead'])
     if not wit['pre_poll'].startswith('temporal') or wit['pre_kill'] != 'invariant:Inv_Force' or wit['pre_self'] != 'invariant:Inv_NoSelfKill':
         raise MachineryError('pre-fix variants are rejected for unexpected reasons: %r' % wit)
     ev.cov['witnesses'] = wit
